@@ -114,7 +114,7 @@ T_C07_Credits == [][NotReset => C07_Credits_Step]_tvars
 T_C07_Coins == [][NotReset => C07_Coins_Step]_tvars
 T_C07_NoOtherCoins == [][NotReset => C07_NoOtherCoins_Step]_tvars
 T_C11_PutOnlyIf == [][NotReset => C11_PutOnlyIf_Step]_tvars
-T_C11_PutIf == [][NotReset => C11_PutIf_Step]_tvars
+T_C11_PutIf == [][NotReset => C11_PutIf_TStep]_tvars
 T_C11_OldestFirst == [][NotReset => C11_OldestFirst_Step]_tvars
 T_C11_AutoRetire == [][NotReset => C11_AutoRetire_Step]_tvars
 T_C12_Expiry == [][NotReset => C12_Expiry_Step]_tvars
@@ -133,7 +133,7 @@ T_C13_ReceiveIntoBound == [][NotReset => C13_ReceiveIntoBound_Step]_tvars
 T_C13_BridgeOut == [][NotReset => C13_BridgeOut_Step]_tvars
 T_C14_Consecutive == [][NotReset => C14_Consecutive_Step]_tvars
 T_C18_FeeExact == [][NotReset => C18_FeeExact_Step]_tvars
-T_C18_NoFeatureDisabled == [][NotReset => C18_NoFeatureDisabled_Step]_tvars
+T_C18_NoFeatureDisabled == [][NotReset => C18_NoFeatureDisabled_TStep]_tvars
 \* END GENERATED STEP WRAPPERS
 
 \* observation-based clauses
